@@ -112,6 +112,10 @@ pub fn next_solution_or<'a>(sn: Rc<RefCell<SolutionNode<'a>>>)
         Some(_) => { return solution; },
     }
 
+    // If a cut (!) was executed in the head goal, which then failed,
+    // the remaining alternatives must not be tried.
+    if sn_ref.no_backtracking { return None; }
+
     match &sn_ref.operator_tail {
         None => { return None; },
         Some(tail) => {
